@@ -92,7 +92,8 @@ impl Cfg {
     }
 
     pub fn random(rng: &mut Rng) -> Cfg {
-        let prefixes = ["osmo", "osmo", "osmo", "init", "mw", "celestia", "a", "longprefixforprotocolchain"];
+        // (the last one makes a 32-byte-address account longer than 90 characters, BIP-173's limit, which cosmos ignores)
+        let prefixes = ["osmo", "osmo", "osmo", "init", "mw", "celestia", "a", "longprefixforprotocolchain", "averyveryverylongprefixforaprotocolchain"];
         let nprefixes = ["celestia", "celestia", "init", "osmo", "c", "nativechainwithlongprefix"];
         let prefix = rng.pick(&prefixes).to_string();
         let native_prefix = if rng.chance(1, 6) { prefix.clone() } else { rng.pick(&nprefixes).to_string() };
@@ -266,7 +267,9 @@ impl Sc {
         let treasury = if cfg.treasury {
             let t = addr32(&cfg.prefix, &format!("treasury{sa}"));
             let m = json!({"admin": admin, "trader": admin, "allowed_swap_routes": []});
-            let r = w.instantiate(Kind::Treasury, &admin, &t, &m.to_string());
+            // deployed by an account that is neither admin nor trader: the message names the admin
+            let deployer = addr20(&cfg.prefix, &format!("deployer{sa}"));
+            let r = w.instantiate(Kind::Treasury, &deployer, &t, &m.to_string());
             if !r.ok {
                 return Err(r);
             }
